@@ -106,6 +106,8 @@ def instantiate(L, pick):
     out = dict(L)
     if c == "Numpy":
         out["dt"] = DT_ALIAS.get(L.get("dt", "int64"), L.get("dt", "int64"))
+        if out["dt"] in ("f64", "f32"):
+            out["d"] = ["nan" if x == -777 else x for x in L["d"]]
         return out
     if c in ("ListOffset", "List", "Indexed"):
         if "w" not in out:
@@ -230,6 +232,8 @@ def steps_for(case, pick):
             op = {"op": "toListOffsetArray64", "src": "a", "start_at_zero": pick([0, 1])}
         else:
             op = {"op": o, "src": "a"}
+    elif act in ("sort", "argsort"):
+        op = {"op": act, "src": "a", "axis": a["axis"], "ascending": a["asc"], "stable": a["stable"]}
     elif act == "comb":
         op = {"op": "combinations", "src": "a", "axis": a["axis"], "n": a["n"], "replacement": a["repl"]}
     else:
